@@ -421,6 +421,8 @@ impl<'this> InternalOptimisingLineFormatter<'this, '_> {
         line: (usize, &LogicalLine),
         first_token_decision: FirstDecision,
     ) -> Result<FormattingSolution, FormattingSolutionError> {
+        #[cfg(pasfmt_verif)]
+        crate::verif::count_search();
         let context_tree = LineFormattingContexts::new_tree();
         let formatting_contexts =
             LineFormattingContexts::new(line.1, &self.token_types, &context_tree);
